@@ -56,15 +56,18 @@ type AssertSpec struct {
 }
 
 type VerifierCfg struct {
-	Issuer       string `json:"issuer"`
-	MaxAgeS      int    `json:"max_age_s"` // 0: no age limit
-	OffsetS      int    `json:"offset_s"`
-	SubjectCheck string `json:"subject_check"` // default (no option) | any | deny-blocked | nil (the option with a nil func)
+	Issuer  string `json:"issuer"`
+	MaxAgeS int    `json:"max_age_s"` // 0: no age limit
+	OffsetS int    `json:"offset_s"`
+	// default (no option) | any | deny-blocked | explicit (op.SubjectIsIssuer handed over) | nil (the option with a nil func;
+	// what "default" means for Ctor literal: the CheckSubject field left out)
+	SubjectCheck string `json:"subject_check"`
 	// Ctor: the public way the *op.JWTProfileVerifier is obtained (verifier_test.go):
 	// "" - op.NewJWTProfileVerifier(storage, ...) for the direct uses, the stock provider for the endpoint uses |
 	// storage - op.NewJWTProfileVerifier(storage, ...) | keyset-store / keyset-static - op.NewJWTProfileVerifierKeySet(keySet, ...)
 	// with an application key set that answers per (issuer, kid) from the storage / from a snapshot of the registration |
-	// provider - (*op.Provider).JWTProfileVerifier(ctx) (fixed 1 h / 1 s / default subject check).
+	// provider - (*op.Provider).JWTProfileVerifier(ctx) (fixed 1 h / 1 s / default subject check) |
+	// literal - &op.JWTProfileVerifier{Verifier: ..., Storage: storage[, CheckSubject: f]} assembled by the application.
 	// Endpoint uses with a non-empty Ctor run against an application provider (embeds *op.Provider, overrides JWTProfileVerifier).
 	Ctor string `json:"ctor,omitempty"`
 }
@@ -133,7 +136,7 @@ func genClients(t *rapid.T) []vkit.ClientSpec {
 			ID: id, Secret: "sec-" + short, AppType: "web",
 			AuthMethod:    rapid.SampledFrom([]string{"private_key_jwt", "private_key_jwt", "private_key_jwt", "client_secret_basic"}).Draw(t, "method"),
 			GrantTypes:    []string{vkit.GCode, vkit.GRefr, vkit.GBearer, vkit.GTE, vkit.GImpl},
-			ResponseTypes: []string{"code", "id_token"},
+			ResponseTypes: []string{"code", "id_token", "id_token token", "token id_token", "code id_token", "code token", "code id_token token"},
 			RedirectURIs:  []string{"https://rp-" + short + ".example.com/cb", "https://rp-" + short + ".example.com/cb2"},
 			Keys:          map[string]string{},
 		}
@@ -262,14 +265,14 @@ func audList(a any) []string {
 var prop = vkit.Prop[Case]{
 	ID: "C14",
 	Rule: "cases = registration of 2-3 clients with 1-3 kids each (RSA / P-256 / P-384 keys, kid names overlapping between clients, occasionally a shared key) x router x issuer x one of: " +
-		"(assert) JWT assertion derived from a valid one by 0-3 mutations (impersonation of another client with own key, iss, sub, aud forms, exp / iat at +-{0,1,2,3,5,30,3600}s around every bound, kid, signing key own/other client's/unregistered, alg, unsigned / HS256-with-public-key / tampered / garbage signature, extra claims, time encodings, " +
+		"(assert) JWT assertion derived from a valid one by 0-3 mutations (impersonation of another client with own key, iss, sub, aud forms incl. near-misses of the issuer [issuer as strict prefix: other host that starts with it, userinfo trick, path / query / fragment extension, trailing slash or blank; strict prefix of the issuer; other spelling: case of scheme / host / all, default port, http] alone or in arrays next to other audiences, against issuers that are a bare origin / end in a slash / have a path / have a path ending in a slash, exp / iat at +-{0,1,2,3,5,30,3600}s around every bound, kid, signing key own/other client's/unregistered, alg, unsigned / HS256-with-public-key / tampered / garbage signature, extra claims, time encodings, " +
 		"byte-level mangling of the finished compact JWS that keeps the payload segment decodable: header segment empty / binary / not base64url / base64url of text / JSON without alg / JSON array / null / numeric alg / truncated / copy of the payload, signature segment not base64url / illegal character inside / cut by 1, 2, half / copy of the header / dropped, dot structure with trailing / leading / doubled dots or extra segments [all: nobody signed this string => never honoured]; white space around / inside segments and the standard base64 alphabet [noise: neither acceptance nor refusal demanded]) " +
 		"used directly (VerifyJWTAssertion, ClientJWTAuth, AuthorizePrivateJWTKey) or as client_assertion on token(code, refresh) / introspection / revocation or as jwt-bearer grant, " +
-		"against a verifier obtained in every public way: op.NewJWTProfileVerifier(storage), op.NewJWTProfileVerifierKeySet(application key set answering per (issuer, kid) from the storage / from a snapshot of the registration), (*op.Provider).JWTProfileVerifier(ctx) " +
-		"x issuer x max age {none, 60 s, 1 h} x offset {0, 1, 5, 60 s} x option {none, SubjectCheck(accept any), SubjectCheck(refuse one subject), SubjectCheck(nil) [subject clause and acceptance not judged, a nil-func panic counts as refusal]}; " +
+		"against a verifier obtained in every public way: op.NewJWTProfileVerifier(storage), op.NewJWTProfileVerifierKeySet(application key set answering per (issuer, kid) from the storage / from a snapshot of the registration), (*op.Provider).JWTProfileVerifier(ctx), a &op.JWTProfileVerifier{...} literal assembled by the application (exported struct and fields; with or without CheckSubject) " +
+		"x issuer x max age {none, 60 s, 1 h} x offset {0, 1, 5, 60 s} x option {none, SubjectCheck(accept any), SubjectCheck(refuse one subject), SubjectCheck(op.SubjectIsIssuer) [= default], SubjectCheck(nil) / literal without CheckSubject [no custom check configured: 'subject equals issuer' judged for soundness, acceptance not demanded, a nil-func panic counts as refusal]}; " +
 		"behind the endpoints either the stock provider (4/7) or an application provider that embeds *op.Provider and overrides JWTProfileVerifier with such a verifier (both routers); the statement's clauses are judged alike for every constructor, " +
 		"while the storage answers the key lookup normally (12/19) or with a fault: key material together with an error (3/19), or no key and a plain error / deadline / *oidc.Error / wrapped *oidc.Error (4/19); " +
-		"(reqobj) authorize request whose request object overrides 1-6 plain parameters with different values, signer / iss / aud / client_id / response_type each agreeing or not, the same byte-level manglings of the compact serialisation, via HTTP (stored auth request) or op.ParseRequestObject, same key-lookup faults; " +
+		"(reqobj) authorize request whose request object overrides 1-6 plain parameters with different values, signer / iss / aud (same near-misses of the issuer) / client_id (other client, unknown, near-misses of the requester's id by case / blank / cut / extension, issuer following or not) each agreeing or not, response_type of object and query (single- and multi-valued) in every relation: equal, absent / empty on either side, other value, proper subset, proper superset, disjoint, other case [all: disagree => object never honoured], permuted / repeated values / other spacing and query without response_type [not decided by the statement: grey], the same byte-level manglings of the compact serialisation, via HTTP (stored auth request) or op.ParseRequestObject, same key-lookup faults; " +
 		"(interop) assertion built by client.SignedJWTProfileAssertion, oidc.GenerateJWTProfileToken, rp (JWT profile, full login + code exchange), rs, profile token source, tokenexchange with RSA PKCS#1 / PKCS#8 and P-256 PKCS#8 keys (asserted) and P-384 / Ed25519 keys (observed only; counted grey). " +
 		"non-trivial = some statement condition violated (a faulted key lookup counts as 'not signed by a key the storage holds') or inside a 2 s time window, or accepted although another client registers a different key under the same kid, or any interop case; " +
 		"distinct = (kind, use, router, verdict, violated / window sets, key relation, kid relation, alg, relative times, verifier constructor / settings / option, key-lookup fault | request-object conditions and overridden fields | helper, key format, use)",
